@@ -128,6 +128,13 @@ def _routes(rec, case):
             sel = perm[:m].reshape(2, m // 2)
         else: sel = perm[0]
         P = [np.asarray(p[sel]) for p in pts_xyz]
+        if shape_kind == '2d':
+            # the same coordinates in other memory layouts: Fortran order, a transposed view, a strided view (the values are what counts)
+            lay = int(rng.integers(0, 4))
+            if lay == 1: P = [np.asfortranarray(a) for a in P]
+            elif lay == 2: P = [np.ascontiguousarray(a.T).T for a in P]
+            elif lay == 3: P = [np.asfortranarray(a) if k_ % 2 == 0 else np.repeat(a, 2, axis=1)[:, ::2] for k_, a in enumerate(P)]
+            shape_kind = '2d' if lay == 0 else '2d_layout%d' % lay
         s2 = dict(sig, route='pointwise_eval', pts=shape_kind)
         ok, g = guarded(rec, c, s2, f.pointwise_eval, P)
         if ok: _close(rec, 'pointwise_eval', g, vflat[sel], s2, c, dscale)
